@@ -6,7 +6,7 @@ DESCRIPTION = {
     "rule": ("Hypothesis draws a client/server option combination from the interoperable set, <=8 messages per direction "
              "(payload lengths biased to 0/125/126/127/65535/65536/2^17 boundaries, text with multi-byte code points or binary), a send API "
              "per message (sendMessage w/ fragmentSize+sync, frame API, streaming API, prepared message, chopped sendFrame, sends from onOpen), "
-             "a send interleaving and a read schedule.  Each case runs under three schedules (drawn splits, all-at-once, byte-wise/odd-chunk). "
+             "a send interleaving and a read schedule.  Each case runs under four schedules (drawn splits, all-at-once, byte-wise/odd-chunk, and bursts of several reads per event-loop turn). "
              "Oracle: receiver onMessage log == sent list per direction; the octets each side wrote parse under an independent strict RFC 6455 "
              "parser and reassemble (independent inflater when compressed) to the sent messages; schedules agree.  Non-trivial = a boundary "
              "length, a fragmented message, a split inside a frame header, or frames coalesced with the handshake; distinct by digest of the case."),
